@@ -7,6 +7,7 @@ CONSTANT Deltas <- DeltasInt
 CONSTANT Factors <- FactorsS
 CONSTANT Divisors <- DivInt
 CONSTANT Halves <- HalvesInt
+CONSTANT Thrower = FALSE
 CONSTANT MaxLen = 0
 INVARIANTS TypeOK ExactlyOnce NewValue
 PROPERTY ChangeNotifies
